@@ -103,6 +103,37 @@ pub fn script(rng: &mut Rng) -> Vec<Step> {
             }
         }
     }
+    if rng.chance(80) {
+        // a pipelined burst whose size lies around the sizes a queue or a batch is likely to have
+        // (how many answers pile up behind the writer depends on how the requests arrive), then a
+        // client that waits for every answer before it goes on
+        let k = *rng.pick(&[30usize, 31, 32, 32, 32, 33, 34, 35, 62, 63, 64, 64, 65, 66, 100]);
+        // nothing else in flight when the burst starts (half of the time), and requests that need
+        // nothing but the reader and the writer (half of the time)
+        if rng.chance(500) {
+            s.unknown_notification("$/barrier");
+            s.steps.last_mut().unwrap().wait = true;
+        }
+        let plain = rng.chance(500);
+        for _ in 0..k {
+            match if plain { 3 } else { rng.below(4) } {
+                0 => {
+                    s.probe(&uris[0]);
+                }
+                1 => {
+                    let text = s.text(&uris[0]).cloned().unwrap_or_default();
+                    let (l, c) = gen::request_position(rng, &text);
+                    s.request("textDocument/hover", &uris[0], l, c);
+                }
+                _ => {
+                    s.unknown_request("x");
+                }
+            }
+        }
+        s.unknown_notification("$/barrier");
+        s.steps.last_mut().unwrap().wait = true;
+        s.probe(&uris[0]);
+    }
     if rng.chance(800) {
         s.shutdown();
         if odd {
